@@ -190,6 +190,18 @@ MUTANTS = [
      "crates/bytecode/src/compiler.rs",
      "                    if export_assignment || self.force_export_assignment() {\n                        self.compile_value_export(*id_index, target_register)?;",
      "                    if export_assignment {\n                        self.compile_value_export(*id_index, target_register)?;"),
+    ("base-walk-get-on-original-map", "C17", "R-BASE-WALK", "run_access_inner", "crates/runtime/src/vm.rs",
+     "                    let maybe_value = access_map.get(&key);",
+     "                    let maybe_value = map.get(&key);"),
+    ("pull-one-chain-prefetches-b", "C13", "R-PULL-ONE", "Chain", "crates/runtime/src/core_lib/iterator/adaptors.rs",
+     "            Some(ref mut iter) => match iter.next() {\n                output @ Some(_) => output,\n                None => {\n                    self.iter_a = None;\n                    self.iter_b.next()\n                }\n            },",
+     "            Some(ref mut iter) => {\n                let output_a = iter.next();\n                let output_b = self.iter_b.next();\n                match output_a {\n                    output @ Some(_) => output,\n                    None => {\n                        self.iter_a = None;\n                        output_b\n                    }\n                }\n            }"),
+    ("float-notation-exp-in-display", "C01", "R-FLOAT-NOTATION", "KNumber", "crates/runtime/src/types/number.rs",
+     "                    write!(f, \"{n:.1}\")",
+     "                    write!(f, \"{n:e}\")"),
+    ("fmt-spec-precision-needs-width", "C11", "R-FMT-SPEC", "render_format_options", "crates/format/src/format.rs",
+     "        result.push_str(&min_width.to_string());\n    }\n    if let Some(precision) = options.precision {\n        result.push_str(&format!(\".{precision}\"));\n    }",
+     "        result.push_str(&min_width.to_string());\n        if let Some(precision) = options.precision {\n            result.push_str(&format!(\".{precision}\"));\n        }\n    }"),
 ]
 
 
@@ -278,6 +290,14 @@ SEEDS = [
     ("C20_d", "C20", "R-SERDE-NARROW"),
     ("C16_d", "C16", "R-MATCH-TARGET"),
     ("C18_d", "C18", "R-FORCE-EXPORT"),
+    # caught after further rules were derived from the misses
+    ("C01_d", "C01", "R-FLOAT-NOTATION"),
+    ("C11_a", "C11", "R-FMT-SPEC"),
+    ("C11_b", "C11", "R-LINE-OFFSETS"),
+    ("C11_c", "C11", "R-LINE-OFFSETS"),
+    ("C13_a", "C13", "R-PULL-ONE"),
+    ("C17_b", "C17", "R-BASE-WALK"),
+    ("C20_b", "C20", "R-CHAR-UNITS"),
 ]
 
 
